@@ -13,7 +13,8 @@ from ..core import Check, Ctx
 
 ID = "C13"
 RULE = (
-    "Hypothesis-generated pairs 30-60 x 70-130 (tile-constructed, integer radiometry 0..20, sparse masks), local "
+    "Hypothesis-generated pairs 30-60 x 70-130 (tile-constructed or seeded textures, integer radiometry up to 3 / 20 / 255 "
+    "/ 4095 - up to 19 with cbca -, sparse masks), local "
     "pipelines (sad/ssd/census/zncc, subpix 1/2/4, optional cbca, wta, vfit/quadratic, median/bilateral with small "
     "odd windows, cross-checking without filling, steps in any legal order), scalar intervals within [-4,4], crop "
     "rectangles with arbitrary (odd and even) offsets; one case in three is 106-130 px wide with a noisy disparity map "
@@ -77,16 +78,18 @@ def radii(steps, disp):
 
 @st.composite
 def crop_cases(draw):
-    pair = draw(gen.image_pair(min_rows=30, max_rows=60, min_cols=70, max_cols=130, max_val=19, masks=True, tile_max=9,
-                               texture=True))
     steps = draw(local_pipeline())
+    # deep radiometry (8 / 12 bit) except with cbca, whose float32 prefix sums of large costs are not associative across crops
+    mv = 19 if any(n.split(".")[0] == "aggregation" for n, _ in steps) else 20
+    pair = draw(gen.image_pair(min_rows=30, max_rows=60, min_cols=70, max_cols=130, max_val=mv, masks=True, tile_max=9,
+                               texture=True))
     a = draw(st.integers(-4, 3))
     disp = [a, min(4, a + draw(st.integers(0, 4)))]
     straddle = draw(st.integers(0, 2)) == 0
     if straddle:
         # the internal 100-pixel processing blocks: a wide image with a noisy disparity map, a median filter, and a crop
         # whose interior contains the columns where the whole image changes block
-        pair = draw(gen.image_pair(min_rows=30, max_rows=44, min_cols=106, max_cols=130, max_val=19, masks=True, tile_max=9,
+        pair = draw(gen.image_pair(min_rows=30, max_rows=44, min_cols=106, max_cols=130, max_val=mv, masks=True, tile_max=9,
                                    texture=True))
         pair["noise"] = {"seed": draw(st.integers(0, 10 ** 6)), "frac": draw(st.sampled_from([0.15, 0.3, 0.5]))}
         if not any(c.get("filter_method") == "median" for _, c in steps):
@@ -175,6 +178,9 @@ def crop_body(ctx: Ctx, p: dict) -> None:
         classes.append("bilateral")
     if c0 % 2:
         classes.append("odd-col-offset")
+    hi_ = p["pair"]["left"]["hi"] if isinstance(p["pair"]["left"], dict) else int(np.max(p["pair"]["left"]))
+    if hi_ > 255:
+        classes.append("radiometry>8bit")
     if p["pair"].get("noise") and p["pair"]["noise"]["frac"] > 0.12:
         classes.append("crop-straddles-100px-block")
     elif p["pair"].get("noise"):
@@ -184,9 +190,10 @@ def crop_body(ctx: Ctx, p: dict) -> None:
 
 @st.composite
 def flip_cases(draw):
-    pair = draw(gen.image_pair(min_rows=12, max_rows=40, min_cols=20, max_cols=60, max_val=19, masks=True, tile_max=9,
-                               texture=True))
     steps = draw(local_pipeline(allow_bilateral=False))
+    mv = 19 if any(n.split(".")[0] == "aggregation" for n, _ in steps) else 20
+    pair = draw(gen.image_pair(min_rows=12, max_rows=40, min_cols=20, max_cols=60, max_val=mv, masks=True, tile_max=9,
+                               texture=True))
     a = draw(st.integers(-4, 3))
     return {"pair": pair, "pipeline": steps, "disp": [a, min(4, a + draw(st.integers(0, 4)))]}
 
